@@ -50,6 +50,7 @@ class Method:
             if not isinstance(a.annotation, ast.Name) or a.annotation.id not in ANNOT:
                 _fail(fn, f'parameter {a.arg} needs annotation str or bytes')
             self.params[a.arg] = ANNOT[a.annotation.id]
+        self.signature = dict(self.params)      # locals are added to params while translating
         self.fresh = 0
         self.body = self.block(list(fn.body))
 
@@ -138,6 +139,13 @@ class Method:
                                 + self.block(rest))
                     return self.expr(tgt.slice, with_k)
                 return self.expr(s.value, with_v)
+            if isinstance(tgt, ast.Name) and tgt.id != 'self':      # a local variable
+                def with_local(vt, vty):
+                    if vty not in ('key', 'bytes', 'optkey', 'none'):
+                        _fail(s, 'unsupported local variable type')
+                    self.params[tgt.id] = vty
+                    return f'let {tgt.id} := {vt} in\n' + self.block(rest)
+                return self.expr(s.value, with_local)
             if _is_self_attr(tgt, '_active'):
                 return self.expr(s.value, lambda vt, vty:
                                  f'let self := set_active self {self.optkey(s, vt, vty)} in\n'
@@ -190,7 +198,7 @@ class Method:
         _fail(s, 'unsupported statement')
 
     def gallina(self) -> str:
-        ps = ''.join(f' ({p} : {t})' for p, t in self.params.items())
+        ps = ''.join(f' ({p} : {t})' for p, t in self.signature.items())
         return f'Definition gen_{self.name} (self : fstate){ps} : outcome :=\n{self.body}.\n'
 
 
